@@ -31,7 +31,7 @@ T = {
 }
 
 ROOT, PREFIX, ROUND = "/tmp/mut", "", 1
-for _r in (2, 3, 4, 5, 6, 7):
+for _r in (2, 3, 4, 5, 6, 7, 8):
     if "--round%d" % _r in sys.argv:
         sys.argv.remove("--round%d" % _r)
         ROOT, PREFIX, ROUND = "/tmp/mut%d" % _r, "r%d-" % _r, _r
@@ -130,7 +130,7 @@ def main():
         for var in ("A", "B"):
             if only and pid not in only and (pid + "-" + var) not in only:
                 continue
-            jobs.append((pid, var, i % 4))
+            jobs.append((pid, var, i % 6))
             i += 1
     # 4 slots, each slot sequential
     results = []
@@ -144,8 +144,8 @@ def main():
             except Exception as e:     # one odd demonstration header must not lose the other results
                 out.append((j[0], j[1], {"property": j[0], "variant": j[1], "status": "error: %r" % (e,)}))
         return out
-    with ThreadPoolExecutor(4) as ex:
-        for r in ex.map(runslot, range(4)):
+    with ThreadPoolExecutor(6) as ex:
+        for r in ex.map(runslot, range(6)):
             results += r
     for pid, var, meta in sorted(results):
         d = "/verif/seeded/%s%s-%s" % (PREFIX, pid, var)
